@@ -119,7 +119,7 @@ let f id vs =
            Printf.fprintf ch " %d %d %d %d %d %d %d"
              (class_of (validate_tuple e m cds w)) (class_of (validate_write e m cds limit w))
              (b01 (valid_for_write e m cds limit w)) (b01 (valid_ctx_tuple e m cds w))
-             (1 - b01 (allowed_raw e m cds limit w)) (b01 (lax_cond_raw e m cds limit w)) (b01 (lax_nocond_raw e m cds limit w))
+             (b01 (allowed_raw e m cds limit w)) (b01 (lax_cond_raw e m cds limit w)) (b01 (lax_nocond_raw e m cds limit w))
          | _ -> failwith "tuple entry") (as_list tuples);
        output_char ch '\n'; flush ch
      | _ -> ());
